@@ -106,10 +106,15 @@ func (d *dynRunner) apply(op *Op) *Resp {
 		if d.last.Kind == rOptions && len(d.last.Opts) > 0 {
 			arg = foldChoice(op.Arg, len(d.last.Opts))
 		}
+		prevKind := d.last.Kind
 		r := d.h.Next(arg)
 		settle(d.bubble)
 		d.last = r
 		d.nNext++
+		if gStats != nil {
+			// abstract state as the host sees it: previous answer x this answer x node x number of options
+			gStats.distinct("abstract_states", hashStr(prevKind, r.Kind, r.Node, string(rune('0'+len(r.Opts)))))
+		}
 		return &r
 	case "write":
 		if d.h.st != nil && op.Val != nil {
